@@ -678,6 +678,16 @@ class Scenario:
                 E.drop_in_place(x['ptr'], RC, None)
             finally:
                 self.post_drop(x['obj'], before)
+        elif k == 'drop_via_raw':
+            # the handle is given up through Rc::into_raw + Rc::decrement_strong_count instead of an ordinary drop
+            x = self.h(op['h'], 'rc')
+            del self.handles[op['h']]
+            p = self.call('Rc', None, 'into_raw', E.read(x['ptr']))
+            self.pre_drop(x['obj'])
+            try:
+                self.call('Rc', None, 'decrement_strong_count', p)
+            finally:
+                self.post_drop(x['obj'], before)
         elif k == 'extras':
             # n additional program-held strong handles (symbolic in sym mode)
             x = self.h(op['h'], 'rc')
@@ -1094,6 +1104,10 @@ class Scenario:
         elif k == 'drop_if':
             if op['h'] in self.handles:
                 self.run_op({'op': 'drop', 'h': op['h']})
+        elif k in ('upgrade_if', 'wdrop_if'):
+            # only if the Weak exists (it was made by a destructor that may not have run on this path)
+            if op['w'] in self.handles:
+                self.run_op({'op': k[:-3], 'w': op['w']})
         elif k == 'note':
             pass
         else:
@@ -1252,7 +1266,7 @@ class Scenario:
             self.check_counts()
         if 'C08' in self.oracles:
             self.check_tables()
-        if 'C03' in self.oracles and op['op'] in ('drop', 'drop_extra', 'dec_strong', 'upgrade'):
+        if 'C03' in self.oracles and op['op'] in ('drop', 'drop_extra', 'dec_strong', 'upgrade', 'drop_via_raw'):
             self.check_collected()
 
     def check_counts(self):
